@@ -59,8 +59,8 @@ CHECKS["C13"] = dict(
 
 CHECKS["C04"] = dict(
     text="Bounded model checking from MIR of LayerEnv::{new, insert, apply}, LayerEnvDelta::{insert, apply, delimiter_for}, "
-         "ModificationBehavior::cmp/partial_cmp and Env::{new, insert, get, contains_key, clone}: up to 2 (quick) / 3 (thorough) inserts, each "
-         "any of 5 scopes x 5 behaviours x 2 names with an arbitrary (unbounded, possibly empty) string value, 5 query scopes incl. an "
+         "ModificationBehavior::cmp/partial_cmp and Env::{new, insert, get, contains_key, clone}: up to 2 inserts, each "
+         "any of 5 scopes x 5 behaviours x 2 names (thorough: a third insert over {all, process p} x {append, delim, override} on one name) with an arbitrary (unbounded, possibly empty) string value, 5 query scopes incl. an "
          "unknown process, each name initially unset or set to an arbitrary string. Per path the solver decides that the resulting "
          "environment equals the CNB modification rules (spec/env_rules.py) for every variable, that untouched variables and the input "
          "environment are unchanged; both insertion orders of every pair are among the explored paths.",
